@@ -1166,6 +1166,35 @@ def _native_histories(tier="quick", seed=0):
             if bad:
                 break
         rec("C02.native.histories[%s]" % label, bad)
+    # every PowerPoint-authored deck of the corpus: opened and saved (and opened, one slide added, saved) it is a closed package
+    import glob
+    import os
+
+    repo = os.environ.get("PPTX_REPO", "/repo")
+    bad = None
+    files = sorted(glob.glob(os.path.join(repo, "features", "steps", "test_files", "*.pptx")))
+    for f in files:
+        for add in (False, True):
+            evals[0] += 1
+            try:
+                prs = Presentation(f)
+                if add and len(prs.slide_layouts):
+                    prs.slides.add_slide(prs.slide_layouts[0]).notes_slide.notes_text_frame.text = "n"
+                buf = io.BytesIO()
+                prs.save(buf)
+                v = _closed_violations(buf.getvalue())
+                if v:
+                    bad = bad or "%s%s: saved file not closed: %s" % (os.path.basename(f), " + a slide with notes" if add else "", v[:3])
+                else:
+                    try:
+                        same = _deck_summary(Presentation(io.BytesIO(buf.getvalue()))) == _deck_summary(prs)
+                    except NotImplementedError:
+                        same = True  # a chart kind the library does not read: only closure is judged for this deck
+                    if not same:
+                        bad = bad or "%s%s: re-opened deck differs from the in-memory one" % (os.path.basename(f), " + a slide with notes" if add else "")
+            except Exception as e:
+                bad = bad or "%s%s: raised %r" % (os.path.basename(f), " + a slide with notes" if add else "", e)
+    rec("C02.native.corpus_decks_open_save_closed", bad)
     # scripted histories: part reuse after the only route to a part has been removed
     def scripted_image_reuse():
         prs = Presentation(io.BytesIO(layout_picture_deck()))
